@@ -50,6 +50,9 @@ pub enum Req {
     SignHolder(usize),
     /// with_channel: sign the next counterparty commitment (read-modify-write of the counterparty side)
     SignCp(usize),
+    /// with_channel: sign the next counterparty commitment with one outgoing HTLC of PAY_SAT for the
+    /// payment hash approved during setup (read-modify-write of the node ledger: validate..apply)
+    PayCp(usize),
     /// with_channel_base: read a per-commitment point
     Point(usize),
     Forget(usize),
@@ -77,7 +80,7 @@ impl Req {
     /// request kind in the generated lock table
     pub fn kind(&self) -> &'static str {
         match self {
-            Req::Validate(_) | Req::SignHolder(_) | Req::SignCp(_) => "channel_request",
+            Req::Validate(_) | Req::SignHolder(_) | Req::SignCp(_) | Req::PayCp(_) => "channel_request",
             Req::Point(_) => "channel_base_request",
             Req::Forget(_) | Req::ForgetDb(_) => "forget_channel",
             Req::Balance => "channel_balance",
@@ -99,6 +102,7 @@ impl Req {
             Req::Validate(c) => format!("req {} validate {}", tid, c),
             Req::SignHolder(c) => format!("req {} signholder {}", tid, c),
             Req::SignCp(c) => format!("req {} signcp {}", tid, c),
+            Req::PayCp(c) => format!("req {} paycp {}", tid, c),
             Req::Point(c) => format!("req {} point {}", tid, c),
             Req::Forget(c) => format!("req {} forget {}", tid, c),
             Req::Balance => format!("req {} balance", tid),
@@ -123,6 +127,7 @@ impl Req {
             "validate" => Req::Validate(arg()? as usize),
             "signholder" => Req::SignHolder(arg()? as usize),
             "signcp" => Req::SignCp(arg()? as usize),
+            "paycp" => Req::PayCp(arg()? as usize),
             "point" => Req::Point(arg()? as usize),
             "forget" => Req::Forget(arg()? as usize),
             "balance" => Req::Balance,
@@ -247,6 +252,9 @@ fn add_block_with(w_node: &Arc<Node>, ctr: &std::sync::atomic::AtomicU32, txs: V
 }
 
 const CHANNEL_VALUE: u64 = 3_000_000;
+/// value of the outgoing HTLC of a `paycp` request; the keysend approved during setup covers ONE of them
+const PAY_SAT: u64 = 50_000;
+const PAY_HASH: [u8; 32] = [0x77; 32];
 
 fn build_world(sc: &Scenario) -> World {
     let node_ctx = test_node_ctx(1);
@@ -261,6 +269,13 @@ fn build_world(sc: &Scenario) -> World {
         let mut c0 = channel_initial_holder_commitment(&node_ctx, &cc);
         let (s0, h0) = counterparty_sign_holder_commitment(&node_ctx, &cc, &mut c0);
         validate_holder_commitment(&node_ctx, &cc, &c0, &s0, &h0).expect("initial commitment");
+        // counterparty commitment 0 (an initial commitment may not carry HTLCs)
+        node_ctx
+            .node
+            .with_channel(&cc.channel_id, |chan| {
+                chan.sign_counterparty_commitment_tx_phase2(&make_test_pubkey(0x20), 0, 0, CHANNEL_VALUE - 1000, 0, vec![], vec![])
+            })
+            .expect("counterparty commitment 0");
         // commitment 1, only prepared: validating it is the concurrent request
         let mut c1 = channel_commitment(
             &node_ctx,
@@ -276,6 +291,8 @@ fn build_world(sc: &Scenario) -> World {
         commits.push((c1, s1, h1));
         chans.push(cc);
     }
+    // an approved keysend for PAY_HASH: enough for one outgoing HTLC of PAY_SAT, not for two
+    node_ctx.node.add_keysend(make_test_pubkey(4), PaymentHash(PAY_HASH), PAY_SAT * 1000).expect("keysend approval");
     let stub = if sc.stub {
         // a stub with a larger id than every ready channel
         let mut cc = test_chan_ctx(&node_ctx, 200, CHANNEL_VALUE);
@@ -358,6 +375,33 @@ fn do_req(w: &World, r: &Req) -> String {
                 match r {
                     Ok((n, s)) => format!("ok {} {}", n, &hex::encode(s.serialize_compact())[..8]),
                     Err(e) => format!("err:{:?}:{}", e.code(), e.message()),
+                }
+            }
+        },
+        Req::PayCp(c) => match w.chans.get(*c) {
+            None => "nochan".into(),
+            Some(cc) => {
+                let r = node.with_channel(&cc.channel_id, |chan| {
+                    let n = chan.enforcement_state.next_counterparty_commit_num;
+                    let htlc = lightning_signer::tx::tx::HTLCInfo2 {
+                        value_sat: PAY_SAT,
+                        payment_hash: PaymentHash(PAY_HASH),
+                        cltv_expiry: 150,
+                    };
+                    chan.sign_counterparty_commitment_tx_phase2(
+                        &make_test_pubkey(0x40 + n as u8),
+                        n,
+                        0,
+                        CHANNEL_VALUE - 1000 - PAY_SAT,
+                        0,
+                        vec![],
+                        vec![htlc],
+                    )
+                    .map(|(s, _)| (n, s))
+                });
+                match r {
+                    Ok((n, s)) => format!("ok {} {}", n, &hex::encode(s.serialize_compact())[..8]),
+                    Err(e) => format!("err:{:?}:{}", e.code(), e.message().chars().take(90).collect::<String>()),
                 }
             }
         },
@@ -497,7 +541,19 @@ fn digest(w: &World) -> String {
         let st = node.get_state();
         let mut inv: Vec<String> = st.invoices.keys().map(|h| hex::encode(&h.0[..2])).collect();
         inv.sort();
-        let mut pay: Vec<String> = st.payments.keys().map(|h| hex::encode(&h.0[..2])).collect();
+        // in-flight totals per payment hash (sum over channels)
+        let mut pay: Vec<String> = st
+            .payments
+            .iter()
+            .map(|(h, p)| {
+                format!(
+                    "{}:out{}:in{}",
+                    hex::encode(&h.0[..2]),
+                    p.outgoing.values().sum::<u64>(),
+                    p.incoming.values().sum::<u64>()
+                )
+            })
+            .collect();
         pay.sort();
         s += &format!(
             "hwm={} inv={:?} pay={:?} allow={} excess={} vel={};",
@@ -695,10 +751,15 @@ pub fn run_scenario(sc: &Scenario, sched: Sched, seed: u64, order: Option<Vec<us
                         .entry(e.addr)
                         .or_insert_with(|| {
                             let in_setup = matches!(sc.threads[tid].get(cur_req[tid]), Some(Req::SetupChan));
+                            let creates = sc.threads.iter().flatten().any(|q| matches!(q, Req::SetupChan | Req::NewChan(_)));
                             if in_setup && holds_slot[tid] > 0 {
                                 format!("monitor {}", 100 + n)
-                            } else {
+                            } else if creates {
                                 format!("slot {}", 100 + n)
+                            } else {
+                                // no request of this scenario creates a mutex: a lock the harness does
+                                // not know (the model answers bad-op: reported, never silently mapped)
+                                format!("unclassified {}", n)
                             }
                         })
                         .clone()
@@ -823,6 +884,12 @@ pub fn describe_deadlock(sc: &Scenario, trace: &[Ev], replies: &[(usize, usize, 
         format!("deadlock-among-ordered-requests:{}", cls)
     };
     (format!("{} (requests: {})", parts.join(" "), via), kind)
+}
+
+fn pay_part(digest: &str) -> &str {
+    let a = digest.find("pay=[").unwrap_or(0);
+    let b = digest[a..].find(']').map(|k| a + k).unwrap_or(digest.len());
+    &digest[a..b]
 }
 
 /// slot acquired while a slot with a larger rank is held
@@ -1000,7 +1067,14 @@ impl C20 {
                     _ => false,
                 });
                 co.violations.push(Violation {
-                    kind: if reuse { "id-reuse:new_channel-after-forget".into() } else { "non-serializable-outcome".into() },
+                    kind: if reuse {
+                        "id-reuse:new_channel-after-forget".into()
+                    } else if !serial.iter().any(|(_, fin, ok)| *ok && pay_part(fin) == pay_part(&r.final_state)) {
+                        // the in-flight payment totals themselves equal no sequential order
+                        "non-serializable-outcome:payments".into()
+                    } else {
+                        "non-serializable-outcome".into()
+                    },
                     desc: format!(
                         "concurrent outcome equals none of the {} sequential orders: replies {:?} final {}; first sequential: {:?}",
                         serial.len(), r.replies, r.final_state, serial.first()
@@ -1079,23 +1153,25 @@ fn gen_scenario(rng: &mut Rng) -> Scenario {
         let mut v = Vec::new();
         for _ in 0..len {
             let c = rng.below(nchan as u64) as usize;
-            let r = match rng.below(25) {
-                0..=4 => Req::Validate(c),
-                5 => if rng.chance(1, 2) { Req::SignHolder(c) } else { Req::SignCp(c) },
+            let r = match rng.below(34) {
+                0..=3 => Req::Validate(c),
+                4 => Req::SignCp(c),
+                5 => Req::SignHolder(c),
                 6 => Req::Point(c),
                 7..=8 => Req::Forget(if rng.chance(1, 5) { 9 } else { c }),
-                9..=10 => Req::Balance,
-                11 => Req::Chaninfo,
-                12..=13 => Req::Heartbeat,
-                14..=15 => Req::Keysend(rng.below(3) as u8),
-                16 => Req::Invoice(rng.below(3) as u8),
-                17 => Req::Allow(rng.below(2) as u8),
-                18 => if rng.chance(1, 3) { Req::ForgetDb(rng.range(1, 4) * 50) } else { Req::NewChan(rng.range(1, 4) * 50) },
-                19 => Req::Onchain,
-                20 => Req::SetupChan,
-                21 => Req::SignOnchain,
-                22..=23 => Req::AddBlock(c),
-                _ => Req::RmBlock,
+                9..=11 => Req::Balance,
+                12 => Req::Chaninfo,
+                13..=14 => Req::Heartbeat,
+                15..=17 => Req::Keysend(rng.below(3) as u8),
+                18..=20 => Req::Invoice(rng.below(3) as u8),
+                21 => Req::Allow(rng.below(2) as u8),
+                22 => if rng.chance(1, 3) { Req::ForgetDb(rng.range(1, 4) * 50) } else { Req::NewChan(rng.range(1, 4) * 50) },
+                23 => Req::Onchain,
+                24 => Req::SetupChan,
+                25 => Req::SignOnchain,
+                26..=27 => Req::AddBlock(c),
+                28 => Req::RmBlock,
+                _ => Req::PayCp(c),
             };
             v.push(r);
         }
@@ -1160,6 +1236,12 @@ impl Group for C20 {
             Scenario { nchan: 2, stub: true, threads: vec![vec![Req::Forget(1)], vec![Req::Balance]] },
             Scenario { nchan: 1, stub: false, threads: vec![vec![Req::Heartbeat], vec![Req::NewChan(7)]] },
             Scenario { nchan: 1, stub: false, threads: vec![vec![Req::AddBlock(0), Req::RmBlock], vec![Req::Validate(0)]] },
+            // invoice approval x keysend approval x balance query x commitment validation (validator_factory vs node_state)
+            Scenario { nchan: 1, stub: false, threads: vec![vec![Req::Invoice(1)], vec![Req::Keysend(1)], vec![Req::Balance]] },
+            Scenario { nchan: 1, stub: false, threads: vec![vec![Req::Invoice(2)], vec![Req::Validate(0)], vec![Req::Keysend(2)]] },
+            // two channels, one approved payment: each signing adds an outgoing HTLC for the same hash
+            Scenario { nchan: 2, stub: false, threads: vec![vec![Req::PayCp(0)], vec![Req::PayCp(1)]] },
+            Scenario { nchan: 3, stub: false, threads: vec![vec![Req::PayCp(0)], vec![Req::PayCp(1)], vec![Req::PayCp(2)]] },
             Scenario { nchan: 1, stub: true, threads: vec![vec![Req::SetupChan], vec![Req::SignOnchain], vec![Req::Balance]] },
             Scenario { nchan: 1, stub: false, threads: vec![vec![Req::NewChan(100), Req::ForgetDb(100)], vec![Req::NewChan(50)], vec![Req::NewChan(100)]] },
             Scenario { nchan: 1, stub: false, threads: vec![vec![Req::NewChan(100), Req::ForgetDb(100)], vec![Req::NewChan(100), Req::NewChan(150)]] },
